@@ -47,13 +47,115 @@ enum Cmp {
     Gt,
     Ge,
 }
+/// expression over the base row / OLD / NEW (mirrors `TExpr` of the Lean model)
+#[derive(Clone, Debug, PartialEq)]
+enum TE {
+    Lit(V),
+    Col(Src, usize),
+    Bin(&'static str, Box<TE>, Box<TE>),
+    Ite(Box<TE>, Box<TE>, Box<TE>),
+    Coal(Box<TE>, Box<TE>),
+}
+#[derive(Clone, Copy, Debug, PartialEq)]
+enum Val {
+    Null,
+    Int(i64),
+    Bool(bool),
+}
+impl TE {
+    fn bin(op: &'static str, a: TE, b: TE) -> TE {
+        TE::Bin(op, Box::new(a), Box::new(b))
+    }
+    fn sql(&self) -> String {
+        match self {
+            TE::Lit(v) => v_sql(v),
+            TE::Col(s, c) => format!("{}C{}", s.sql(), c),
+            TE::Bin(op, a, b) => {
+                let o = match *op {
+                    "add" => "+",
+                    "sub" => "-",
+                    "eq" => "=",
+                    "ne" => "<>",
+                    "lt" => "<",
+                    "le" => "<=",
+                    "gt" => ">",
+                    "ge" => ">=",
+                    "and" => "AND",
+                    _ => "OR",
+                };
+                format!("({} {} {})", a.sql(), o, b.sql())
+            }
+            TE::Ite(c, t, e) => format!("CASE WHEN {} THEN {} ELSE {} END", c.sql(), t.sql(), e.sql()),
+            TE::Coal(a, b) => format!("COALESCE({}, {})", a.sql(), b.sql()),
+        }
+    }
+    fn sx(&self) -> String {
+        match self {
+            TE::Lit(v) => format!("(lit {})", v_sx(v)),
+            TE::Col(s, c) => format!("(c {} {})", s.sx(), c),
+            TE::Bin(op, a, b) => format!("({} {} {})", op, a.sx(), b.sx()),
+            TE::Ite(c, t, e) => format!("(ite {} {} {})", c.sx(), t.sx(), e.sx()),
+            TE::Coal(a, b) => format!("(coal {} {})", a.sx(), b.sx()),
+        }
+    }
+    /// SQL semantics on the images the property names: OLD = row before, NEW = row after
+    fn eval(&self, old: &Option<R>, new: &Option<R>, base: Option<&R>) -> Option<Val> {
+        let v = |x: V| x.map(Val::Int).unwrap_or(Val::Null);
+        Some(match self {
+            TE::Lit(x) => v(*x),
+            TE::Col(Src::Base, c) => v(*base?.get(*c)?),
+            TE::Col(Src::Old, c) => v(*old.as_ref()?.get(*c)?),
+            TE::Col(Src::New, c) => v(*new.as_ref()?.get(*c)?),
+            TE::Bin(op, a, b) => {
+                let (x, y) = (a.eval(old, new, base)?, b.eval(old, new, base)?);
+                match (*op, x, y) {
+                    ("and", Val::Bool(false), _) | ("and", _, Val::Bool(false)) => Val::Bool(false),
+                    ("and", Val::Bool(true), Val::Bool(true)) => Val::Bool(true),
+                    ("and", Val::Null | Val::Bool(_), Val::Null | Val::Bool(_)) => Val::Null,
+                    ("or", Val::Bool(true), _) | ("or", _, Val::Bool(true)) => Val::Bool(true),
+                    ("or", Val::Bool(false), Val::Bool(false)) => Val::Bool(false),
+                    ("or", Val::Null | Val::Bool(_), Val::Null | Val::Bool(_)) => Val::Null,
+                    ("and" | "or", _, _) => return None,
+                    (_, Val::Null, _) | (_, _, Val::Null) => Val::Null,
+                    ("add", Val::Int(p), Val::Int(q)) => Val::Int(p + q),
+                    ("sub", Val::Int(p), Val::Int(q)) => Val::Int(p - q),
+                    ("eq", Val::Int(p), Val::Int(q)) => Val::Bool(p == q),
+                    ("ne", Val::Int(p), Val::Int(q)) => Val::Bool(p != q),
+                    ("lt", Val::Int(p), Val::Int(q)) => Val::Bool(p < q),
+                    ("le", Val::Int(p), Val::Int(q)) => Val::Bool(p <= q),
+                    ("gt", Val::Int(p), Val::Int(q)) => Val::Bool(p > q),
+                    ("ge", Val::Int(p), Val::Int(q)) => Val::Bool(p >= q),
+                    _ => return None,
+                }
+            }
+            TE::Ite(c, t, e) => {
+                if c.eval(old, new, base)? == Val::Bool(true) {
+                    t.eval(old, new, base)?
+                } else {
+                    e.eval(old, new, base)?
+                }
+            }
+            TE::Coal(a, b) => match a.eval(old, new, base)? {
+                Val::Null => b.eval(old, new, base)?,
+                x => x,
+            },
+        })
+    }
+}
 #[derive(Clone, Debug, PartialEq)]
 enum W {
     Cmp(Src, usize, Cmp, i64),
     Raw(Src, usize),
+    Expr(TE),
 }
 #[derive(Clone, Debug, PartialEq)]
 enum Act {
+    /// INSERT INTO A VALUES (tid, NULL, NULL, NULL, <expr>, NULL, NULL)
+    AuditX(TE),
+    /// UPDATE T SET Cc = <expr> WHERE <expr>
+    UpdX(usize, TE, TE),
+    /// DELETE FROM T WHERE <expr>
+    DelX(TE),
     Audit(bool, bool),
     Reinsert,
     InsRow(R),
@@ -186,6 +288,17 @@ impl Src {
         }
     }
 }
+/// the expression AST the parser builds for `text` (OLD.c / NEW.c become pseudo-variables)
+fn parse_expr(text: &str) -> Expression {
+    match vibesql_parser::Parser::parse_sql(&format!("SELECT {}", text)) {
+        Ok(Statement::Select(sel)) => match sel.select_list.into_iter().next() {
+            Some(SelectItem::Expression { expr, .. }) => expr,
+            other => panic!("harness precondition: select item {:?}", other),
+        },
+        other => panic!("harness precondition: cannot parse expression {}: {:?}", text, other),
+    }
+}
+
 impl W {
     fn expr(&self) -> Expression {
         match self {
@@ -195,18 +308,21 @@ impl W {
                 right: Box::new(Expression::Literal(SqlValue::Integer(*k))),
             },
             W::Raw(s, c) => s.expr(*c),
+            W::Expr(e) => parse_expr(&e.sql()),
         }
     }
     fn sx(&self) -> String {
         match self {
             W::Cmp(s, c, op, k) => format!("(cmp {} {} {} {})", s.sx(), c, op.sx(), k),
             W::Raw(s, c) => format!("(raw {} {})", s.sx(), c),
+            W::Expr(e) => format!("(expr {})", e.sx()),
         }
     }
     fn text(&self) -> String {
         match self {
             W::Cmp(s, c, op, k) => format!("{}C{} {} {}", s.sql(), c, op.sql(), k),
             W::Raw(s, c) => format!("{}C{}", s.sql(), c),
+            W::Expr(e) => e.sql(),
         }
     }
 }
@@ -217,6 +333,9 @@ impl Act {
         };
         match self {
             Act::Audit(uo, un) => format!("INSERT INTO A VALUES ({}, {}, {})", tid, img("OLD", *uo), img("NEW", *un)),
+            Act::AuditX(e) => format!("INSERT INTO A VALUES ({}, NULL, NULL, NULL, {}, NULL, NULL)", tid, e.sql()),
+            Act::UpdX(c, se, we) => format!("UPDATE T SET C{} = {} WHERE {}", c, se.sql(), we.sql()),
+            Act::DelX(we) => format!("DELETE FROM T WHERE {}", we.sql()),
             Act::Reinsert => "INSERT INTO T VALUES (NEW.C0, NEW.C1, NEW.C2)".into(),
             Act::InsRow(r) => format!("INSERT INTO T VALUES {}", rows_sql(&[r.clone()])),
             Act::Decr(s, c) => format!("UPDATE T SET C{c} = C{c} - 1 WHERE C0 = {p}C0 AND C{c} > 0", c = c, p = s.sql()),
@@ -226,6 +345,9 @@ impl Act {
     fn sx(&self) -> String {
         match self {
             Act::Audit(uo, un) => format!("(audit {} {})", *uo as u8, *un as u8),
+            Act::AuditX(e) => format!("(auditx {})", e.sx()),
+            Act::UpdX(c, se, we) => format!("(updx {} {} {})", c, se.sx(), we.sx()),
+            Act::DelX(we) => format!("(delx {})", we.sx()),
             Act::Reinsert => "(reinsert)".into(),
             Act::InsRow(r) => format!("(insrow {})", r.iter().map(v_sx).collect::<Vec<_>>().join(" ")),
             Act::Decr(s, c) => format!("(decr {} {})", s.sx(), c),
@@ -233,7 +355,7 @@ impl Act {
         }
     }
     fn nested(&self) -> bool {
-        !matches!(self, Act::Audit(..))
+        !matches!(self, Act::Audit(..) | Act::AuditX(..))
     }
 }
 impl Ev {
@@ -548,6 +670,11 @@ fn when_holds(w: &W, old: &Option<R>, new: &Option<R>) -> Option<bool> {
     match w {
         W::Cmp(s, c, op, k) => get(*s, *c).map(|v| v.map(|v| op.holds(v, *k)).unwrap_or(false)),
         W::Raw(..) => None, // not boolean: the statement must fail
+        W::Expr(e) => match e.eval(old, new, Some(base))? {
+            Val::Bool(b) => Some(b),
+            Val::Null => Some(false),
+            Val::Int(_) => None,
+        },
     }
 }
 
@@ -595,12 +722,26 @@ fn oracle_success(case: &Case, r: &Run) -> Vec<String> {
         let fires = t.table == 0 && t.enabled && t.timing < 2 && t.ev.kind() == case.st.kind();
         let mut expect: Vec<R> = vec![];
         if fires {
-            let Act::Audit(uo, un) = &t.body[0] else { continue };
-            let entry = |o: &Option<R>, n: &Option<R>| -> R {
-                let mut e = vec![];
-                e.extend(if *uo { o.clone().unwrap_or(vec![None; 3]) } else { vec![None; 3] });
-                e.extend(if *un { n.clone().unwrap_or(vec![None; 3]) } else { vec![None; 3] });
-                e
+            // one audit row per body statement and firing, from the images the property names
+            let entries = |o: &Option<R>, n: &Option<R>, out: &mut Vec<R>| {
+                for a in &t.body {
+                    match a {
+                        Act::Audit(uo, un) => {
+                            let mut e = vec![];
+                            e.extend(if *uo { o.clone().unwrap_or(vec![None; 3]) } else { vec![None; 3] });
+                            e.extend(if *un { n.clone().unwrap_or(vec![None; 3]) } else { vec![None; 3] });
+                            out.push(e);
+                        }
+                        Act::AuditX(x) => {
+                            let v = match x.eval(o, n, None) {
+                                Some(Val::Int(i)) => Some(i),
+                                _ => None,
+                            };
+                            out.push(vec![None, None, None, v, None, None]);
+                        }
+                        _ => {}
+                    }
+                }
             };
             if t.row {
                 for (o, n) in &affected {
@@ -614,10 +755,10 @@ fn oracle_success(case: &Case, r: &Run) -> Vec<String> {
                             continue;
                         }
                     }
-                    expect.push(entry(o, n));
+                    entries(o, n, &mut expect);
                 }
             } else {
-                expect.push(entry(&None, &None));
+                entries(&None, &None, &mut expect);
             }
         }
         let mut got = by_tid.remove(&t.tid).unwrap_or_default();
@@ -927,6 +1068,74 @@ fn probes() -> Vec<(String, Case)> {
             );
         }
     }
+    // OLD.c and NEW.c of the SAME column inside ONE expression: WHEN, VALUES item, body UPDATE / DELETE
+    {
+        let o = |c: usize| TE::Col(Src::Old, c);
+        let n = |c: usize| TE::Col(Src::New, c);
+        let b = |c: usize| TE::Col(Src::Base, c);
+        let l = |i: i64| TE::Lit(Some(i));
+        let mut rows = base.clone();
+        rows.push(vec![Some(5), None, Some(1)]);
+        rows.push(vec![Some(6), Some(7), None]);
+        rows.push(r3(9, 0, 0)); // marker row for the body DELETE
+        let stmts = vec![
+            St::Upd(Sel::Cmp(0, Cmp::Le, 6), vec![Asg::Add(1, 1)]),                 // c1 changes
+            St::Upd(Sel::Cmp(0, Cmp::Le, 6), vec![Asg::Add(1, 0)]),                 // assigned, unchanged
+            St::Upd(Sel::Cmp(0, Cmp::Le, 6), vec![Asg::Add(2, 1)]),                 // another column changes
+            St::Upd(Sel::Cmp(0, Cmp::Le, 6), vec![Asg::Set(1, 20)]),                // some change, one not, NULL -> value
+            St::Upd(Sel::Cmp(0, Cmp::Le, 6), vec![Asg::Null(1)]),                   // value -> NULL
+            St::Upd(Sel::Cmp(0, Cmp::Le, 6), vec![Asg::Add(1, 2), Asg::Set(2, 1)]), // several columns
+            St::Upd(Sel::Cmp(0, Cmp::Gt, 50), vec![Asg::Add(1, 1)]),                // zero rows
+        ];
+        let whens = vec![
+            TE::bin("ne", o(1), n(1)),
+            TE::bin("ne", n(1), o(1)),
+            TE::bin("lt", o(1), n(1)),
+            TE::bin("gt", TE::bin("sub", n(1), o(1)), l(0)),
+            TE::bin("and", TE::bin("ne", o(1), n(1)), TE::bin("eq", o(2), n(2))),
+            TE::bin("or", TE::bin("ne", o(2), n(2)), TE::bin("ne", o(1), n(1))),
+            TE::bin("ne", TE::Coal(Box::new(o(1)), Box::new(l(0))), TE::Coal(Box::new(n(1)), Box::new(l(0)))),
+            TE::bin("eq", TE::Ite(Box::new(TE::bin("lt", o(1), n(1))), Box::new(l(1)), Box::new(l(0))), l(1)),
+            TE::bin("ne", b(1), o(1)),
+        ];
+        let vals = vec![
+            TE::bin("sub", n(1), o(1)),
+            TE::bin("sub", o(1), n(1)),
+            TE::bin("add", o(1), n(1)),
+            TE::Ite(Box::new(TE::bin("lt", o(1), n(1))), Box::new(n(1)), Box::new(o(1))),
+            TE::Ite(Box::new(TE::bin("ne", o(1), n(1))), Box::new(l(1)), Box::new(l(0))),
+            TE::Coal(Box::new(o(1)), Box::new(n(1))),
+            TE::Coal(Box::new(n(1)), Box::new(o(1))),
+            TE::bin("add", TE::bin("sub", n(1), o(1)), TE::bin("sub", n(2), o(2))),
+        ];
+        for (si, st) in stmts.iter().enumerate() {
+            for timing in 0..2u8 {
+                for (wi, w) in whens.iter().enumerate() {
+                    add(&format!("oldnew-when-{}-{}-{}", si, timing, wi), &rows, vec![Trig { when: Some(W::Expr(w.clone())), ..tr(1, timing, Ev::Upd(None), true) }], st.clone());
+                }
+                for (vi, v) in vals.iter().enumerate() {
+                    add(&format!("oldnew-value-{}-{}-{}", si, timing, vi), &rows, vec![Trig { body: vec![Act::AuditX(v.clone()), Act::Audit(true, true)], ..tr(1, timing, Ev::Upd(None), true) }], st.clone());
+                }
+                // body UPDATE: SET and WHERE mention OLD.c1 and NEW.c1 (the nested UPDATE leaves c1 alone, so it does not recurse further)
+                add(
+                    &format!("oldnew-body-update-{}-{}", si, timing),
+                    &rows,
+                    vec![Trig {
+                        body: vec![Act::UpdX(2, TE::bin("sub", n(1), o(1)), TE::bin("and", TE::bin("eq", b(0), l(9)), TE::bin("ne", o(1), n(1))))],
+                        ..tr(1, timing, Ev::Upd(None), true)
+                    }],
+                    st.clone(),
+                );
+                // body DELETE of the marker row when c1 changed
+                add(
+                    &format!("oldnew-body-delete-{}-{}", si, timing),
+                    &rows,
+                    vec![Trig { body: vec![Act::DelX(TE::bin("and", TE::bin("eq", b(0), l(9)), TE::bin("lt", o(1), n(1)))), Act::Audit(true, true)], ..tr(1, timing, Ev::Upd(None), true) }, tr(2, 1, Ev::Del, true)],
+                    st.clone(),
+                );
+            }
+        }
+    }
     add("nested-delete-in-update", &base, vec![Trig { body: vec![Act::DelKey(Src::Old)], ..tr(1, 0, Ev::Upd(None), true) }, tr(2, 1, Ev::Del, true), tr(3, 1, Ev::Upd(None), true)], St::Upd(Sel::Cmp(0, Cmp::Le, 2), vec![Asg::Add(1, 1)]));
     add("nested-insert-in-delete", &base, vec![Trig { body: vec![Act::Audit(true, false), Act::InsRow(r3(9, 9, 0))], ..tr(1, 0, Ev::Del, true) }, tr(2, 1, Ev::Ins, true), tr(3, 0, Ev::Ins, false)], St::Del(Some(Sel::Cmp(0, Cmp::Le, 2))));
     add("nested-insert-in-stmt-trigger", &base, vec![Trig { body: vec![Act::InsRow(r3(9, 9, 0))], ..tr(1, 0, Ev::Del, false) }, tr(2, 1, Ev::Ins, true), tr(3, 1, Ev::Del, true)], St::Del(Some(Sel::Cmp(0, Cmp::Le, 2))));
@@ -972,6 +1181,38 @@ fn gen_sel(rng: &mut Rng) -> Sel {
     } else {
         let c = rng.below(3) as usize;
         Sel::Cmp(c, gen_cmp(rng), if c == 0 { rng.range(1, 6) } else { rng.range(0, 5) })
+    }
+}
+
+fn gen_int_te(rng: &mut Rng, c: usize, depth: u32) -> TE {
+    let img = |rng: &mut Rng, c: usize| TE::Col(if rng.chance(1, 2) { Src::Old } else { Src::New }, c);
+    let c2 = if rng.chance(3, 4) { c } else { 1 + rng.below(2) as usize };
+    if depth == 0 {
+        return if rng.chance(1, 5) { TE::Lit(Some(rng.range(0, 5))) } else { img(rng, c2) };
+    }
+    match rng.below(6) {
+        0 => TE::bin("sub", TE::Col(Src::New, c), TE::Col(Src::Old, c)),
+        1 => TE::bin(if rng.chance(1, 2) { "add" } else { "sub" }, gen_int_te(rng, c, depth - 1), gen_int_te(rng, c, depth - 1)),
+        2 => TE::Ite(Box::new(gen_bool_te(rng, c, depth - 1)), Box::new(gen_int_te(rng, c, depth - 1)), Box::new(gen_int_te(rng, c, depth - 1))),
+        3 => TE::Coal(Box::new(img(rng, c)), Box::new(img(rng, c2))),
+        4 => TE::Coal(Box::new(TE::Col(Src::Old, c)), Box::new(TE::Col(Src::New, c))),
+        _ => img(rng, c2),
+    }
+}
+fn gen_bool_te(rng: &mut Rng, c: usize, depth: u32) -> TE {
+    let ops = ["eq", "ne", "lt", "le", "gt", "ge"];
+    if depth > 0 && rng.chance(1, 4) {
+        let other = 1 + rng.below(2) as usize;
+        let op = if rng.chance(1, 2) { "and" } else { "or" };
+        let a = gen_bool_te(rng, c, depth - 1);
+        let b = gen_bool_te(rng, other, depth - 1);
+        return TE::bin(op, a, b);
+    }
+    if rng.chance(1, 2) {
+        let (a, b) = if rng.chance(1, 2) { (Src::Old, Src::New) } else { (Src::New, Src::Old) };
+        TE::bin(*rng.pick(&ops), TE::Col(a, c), TE::Col(b, c))
+    } else {
+        TE::bin(*rng.pick(&ops), gen_int_te(rng, c, depth.saturating_sub(1)), gen_int_te(rng, c, depth.saturating_sub(1)))
     }
 }
 
@@ -1037,6 +1278,28 @@ fn gen_case(rng: &mut Rng) -> Case {
         }
         if rng.chance(1, 12) {
             t.body = vec![Act::Audit(rng.chance(1, 2), rng.chance(1, 2))];
+        }
+        // UPDATE row triggers: OLD.c and NEW.c of one column inside one expression
+        if has_old && has_new {
+            let c = 1 + rng.below(2) as usize;
+            if rng.chance(1, 3) {
+                t.when = Some(W::Expr(gen_bool_te(rng, c, 2)));
+            }
+            if rng.chance(1, 3) {
+                let x = Act::AuditX(gen_int_te(rng, c, 2));
+                if rng.chance(1, 2) {
+                    t.body.push(x);
+                } else {
+                    t.body.insert(0, x);
+                }
+            }
+            if !nested_used && rng.chance(1, 10) {
+                nested_used = true;
+                let guard = TE::bin(*rng.pick(&["ne", "lt", "gt"]), TE::Col(Src::Old, c), TE::Col(Src::New, c));
+                let key = TE::bin("eq", TE::Col(Src::Base, 0), if rng.chance(1, 2) { TE::Col(Src::Old, 0) } else { TE::Lit(Some(rng.range(1, 6))) });
+                let w = TE::bin("and", key, guard);
+                t.body.push(if rng.chance(1, 2) { Act::UpdX(3 - c, gen_int_te(rng, c, 1), w) } else { Act::DelX(w) });
+            }
         }
         if !nested_used && rng.chance(1, 6) {
             nested_used = true;
